@@ -87,7 +87,7 @@ def seq_case():
                                max_shipped_cols=20, tiny_ok=True, conventions=(0, 1, 2)))
         steps = []
         for _ in range(draw(st.integers(1, 4))):
-            k = draw(st.sampled_from(['reorder', 'reorder', 'rename', 'file', 'reorder_geo']))
+            k = draw(st.sampled_from(['reorder', 'reorder', 'rename', 'file', 'reorder_geo', 'demote']))
             if k == 'reorder':
                 steps.append({'op': 'reorder', 'bseed': draw(st.integers(0, 10 ** 6)), 'cseed': draw(st.integers(0, 10 ** 6)),
                               'flip': draw(st.one_of(st.sampled_from(['none', 'all', 'first']),
@@ -98,6 +98,9 @@ def seq_case():
                               'kind': draw(st.sampled_from(['fresh', 'swap', 'cycle', 'shift']))})
             elif k == 'reorder_geo':
                 steps.append({'op': 'reorder_geo'})
+            elif k == 'demote':
+                steps.append({'op': 'demote', 'blocks': draw(st.lists(st.integers(0, 500), min_size=1, max_size=5)),
+                              'repeat': draw(st.booleans())})
             else:
                 steps.append({'op': 'file', 'mesh': draw(st.sampled_from(['infile', 'infile', 'meshfile', 'binary']))})
         c = {'k': 'seq', 'rc': rc, 'steps': steps}
@@ -114,6 +117,10 @@ def minc_case():
                                conventions=(0,)))
         nf = draw(st.integers(2, 6))
         vf = [draw(st.sampled_from([0.02, 0.1, 0.3, 1.0, 5.0, 20.0, 50.0])) for _ in range(nf)]
+        if draw(st.integers(0, 3)) == 0:
+            # fractions as people type them: rounded thirds / sixths / sevenths, adding up to almost - not exactly - one
+            vf = draw(st.sampled_from([[0.03333, 0.13333, 0.83333], [0.33333, 0.66666], [0.16667, 0.16667, 0.66667],
+                                       [0.142857, 0.285714, 0.571428], [0.1, 0.2, 0.3, 0.39999], [0.05, 0.95001]]))
         nfp = draw(st.integers(1, 3))
         spacing = draw(st.one_of(st.sampled_from([10.0, 50.0, 100.0]),
                                  st.lists(st.sampled_from([10.0, 40.0, 80.0]), min_size=1, max_size=3)))
@@ -183,6 +190,25 @@ def run_seq(case, R):
                 R.check([(c.block[0].name, c.block[1].name) for c in grid.connectionlist] == cnames, 'reorder:connection-order',
                         'connection order/orientation is not the requested one')
             compare_sig(R, 'reorder', before, physical_signature(grid))
+        elif step['op'] == 'demote':
+            # the library's other block-reordering call: the named blocks go to the end of the list, in the order given
+            # (a name given twice is still one block)
+            R.label('step:demote' + (':repeated-name' if step['repeat'] else ''))
+            names0 = [b.name for b in grid.blocklist]
+            sel = list(dict.fromkeys(names0[i % nb] for i in step['blocks']))
+            arg = sel + sel[:1] if step['repeat'] else sel
+            with R.lib('demote_block'):
+                grid.demote_block(arg if len(arg) > 1 else arg[0])
+            want = [n for n in names0 if n not in sel] + sel
+            got_names = [b.name for b in grid.blocklist]
+            if step['repeat']:
+                # a name mentioned twice: the documentation fixes only that the named blocks end up last - still one of each
+                ok_order = got_names[:len(want) - len(sel)] == want[:len(want) - len(sel)] and sorted(got_names[len(want) - len(sel):]) == sorted(sel)
+            else: ok_order = got_names == want
+            R.check(ok_order, 'demote:block-order',
+                    lambda: 'after demote_block(%r): %d blocks %r..., expected %d %r...' % (
+                        arg, len(grid.blocklist), [b.name for b in grid.blocklist][-4:], len(want), want[-4:]))
+            compare_sig(R, 'demote', before, physical_signature(grid))
         elif step['op'] == 'reorder_geo':
             # the other form of the call: the order is taken from a geometry (here the one the grid was built from)
             if renamed or [b.name for b in grid.blocklist] and sorted(b.name for b in grid.blocklist) != sorted(gg.block_name_list):
